@@ -421,9 +421,29 @@ def stab_cases(draw):
             "hfac": draw(st.sampled_from([1e-4, 1e-2, 0.3, 1.5, 10.0, 1e3]))}
 
 
+# histories longer than any plausible internal block (4096 / 8192 steps): one call = the documented recurrence
+LONG_NT = [4097, 5000, 8193, 12289]
+
+
+@st.composite
+def cdf_long_cases(draw):
+    c = draw(cdf_cases())
+    c.update(nt=draw(st.sampled_from(LONG_NT)), n=min(c["n"], 3), reuse=False)
+    return c
+
+
+@st.composite
+def newmark_long_cases(draw):
+    c = draw(newmark_cases())
+    c.update(nt=draw(st.sampled_from(LONG_NT)), n=min(c["n"], 3), reuse=False, nonlin=c["nonlin"][:1])
+    return c
+
+
 PARTS = [
     Part("newmark", oracle_newmark, strategy=newmark_cases, quick=(6, 150), thorough=(16, 2000)),
     Part("cdf", oracle_cdf, strategy=cdf_cases, quick=(4, 100), thorough=(16, 1200)),
+    Part("cdf_long", oracle_cdf, strategy=cdf_long_cases, quick=(4, 10), thorough=(8, 40)),
+    Part("newmark_long", oracle_newmark, strategy=newmark_long_cases, quick=(4, 6), thorough=(8, 25)),
     Part("convergence", oracle_convergence, strategy=conv_cases, quick=(3, 25), thorough=(16, 100)),
     Part("stability", oracle_stability, strategy=stab_cases, quick=(2, 80), thorough=(8, 600)),
 ]
